@@ -803,6 +803,31 @@ impl Prop for C05 {
         if idx % 40 == 39 {
             return self.long_line_case(rng, ctx);
         }
+        if idx % 40 == 38 {
+            // remark text is kept character for character, whatever it starts with
+            for _ in 0..6 {
+                let n = rng.range(0, 65529);
+                let kw = *rng.pick(&["REM", "rem", "Rem", "'"]);
+                let first = *rng.pick(&["2", "1)", "$", "!", "#", "%", " ", "  ", ":", ";", "\"", "-", "=", "é", "(", "&H", "."]);
+                let mut rest = String::from(first);
+                for _ in 0..rng.range(0, 6) {
+                    rest.push_str(*rng.pick(&["nd pass", ": don't touch", " GOTO 10", "\"q", " x", "é→", "  ", "$", "2", "rem", "ELSE", "'", "?"]));
+                }
+                let src = format!("{} {}{}", n, kw, rest);
+                let want = format!("{} {}{}", n, if kw == "'" { "'" } else { "REM" }, rest);
+                let want = want.trim_end_matches([' ', '\t']).to_string();
+                mon::journal(&src);
+                let t1 = Line::new(&src).to_string();
+                ctx.count("remark_texts_compared");
+                ctx.eval(&src, true);
+                if t1 != want {
+                    ctx.violation("remark-changed", "list:remark-text", &format!("{:?} lists as {:?}: the remark text is not preserved (expected {:?})", src, t1, want), &src);
+                    return;
+                }
+                self.check_line(&src, false, ctx);
+            }
+            return;
+        }
         let o = Opts { data: rng.coin(), func: rng.coin(), tron: false, stop: true, max_lines: 20, input: rng.coin(), frac: rng.coin(), strings: rng.coin(), arrays: rng.coin() };
         let p = gen::generate(rng, o);
         let canon = gen::render(&p);
